@@ -50,6 +50,10 @@
 //	(*Update).Announced() / .Withdrawals()      all reachable / unreachable NLRI of the message
 //	                                            (classic + MP) as (Family, NLRI) pairs
 //	(*Update).IsEndOfRIB() (Family, bool)
+//	(*Update).EncodeBody(opts) []byte           body without size check (hostile input)
+//	SplitAttrs(region) ([]Attr, error); ParseAttrs([]Attr, opts) (*PathAttrs, error)
+//	EncodeNLRIs / DecodeNLRIs(region, family, addPath); EncodeASPath / DecodeASPath(value, as4)
+//	FromBits(v4, hi, lo, len) NLRI              from the harness' two-word prefix layout (gen.P)
 //
 // Strict classifier (DESIGN.md §4 C19)
 //
